@@ -98,5 +98,21 @@ def c10_live(v, tier, seed, work):
     c, d, s, st = vlib.collect_runs(v, res)
     return dict(live_probes=int(c.get("evaluations", 0)), distinct=len(d), **st)
 
+def _tsan_judge(rep):
+    return rep["tool"] != "tsan" or rep.get("in_repo")
+
+def run_c09(tier, seed):
+    v = vlib.Verdict("C09", tier, seed, level="exploration")
+    work = vlib.scratch_dir("C09")
+    binary = vlib.build_harness("mt", "tsan", opt="-O1")
+    nproc = 4   # each process runs up to 8 workers + 12 clients: keep real parallelism
+    res = vlib.run_resumable(binary, ["--seed", str(seed), "--cases", str(6 if tier == "quick" else 120), "--maxreq", "120" if tier == "quick" else "400"], nproc,
+                             timeout=300 if tier == "quick" else 7200, work=work, env=vlib.SAN_ENV_EXPLORE)
+    counters, distinct, samples, stats = vlib.collect_runs(v, res, judge_report=_tsan_judge)
+    v.assumptions += ["interleavings are whatever the OS scheduler produces under ThreadSanitizer; each configuration is run in several processes (race reports vary from run to run)",
+                      "ThreadSanitizer reports without a Pistache frame (harness or libstdc++ internals) are not judged; shutdown()/destruction gets a 30 s x load bound"]
+    return _finish(v, work, counters, distinct, samples, stats,
+                   "endpoint with w in {1,2,4,8} workers sharing one Rest::Router (routes under GET/POST/PUT/DELETE/PATCH/OPTIONS/HEAD) x 1-12 keep-alive client threads x 5-120 requests hitting every method table, 405 (other method registered) and 404, handlers answering from a foreign thread; each response's tag must be the function of its request and no unsolicited bytes may arrive; shutdown() fired after the load, idle with connections open, mid-load, with slow handlers in flight, before any load, twice; afterwards the port must refuse and /proc/self/task be back at the baseline. Oracle for shared state: ThreadSanitizer. distinct = (workers, clients, shutdown point)")
+
 def run(pid, tier, seed, replay=None):
-    return {"C05": run_c05, "C06": run_c06, "C07": run_c07, "C08": run_c08, "C14": run_c14}[pid](tier, seed)
+    return {"C09": run_c09, "C05": run_c05, "C06": run_c06, "C07": run_c07, "C08": run_c08, "C14": run_c14}[pid](tier, seed)
